@@ -23,27 +23,27 @@ theorem bind_stable_l {α β : Type} {x : Except Err α} {g g' : α → Except E
   bind_stable (fun _ => rfl) hg
 
 theorem C_exec_mono1 (f : Nat) :
-    (∀ te s st, C.exec te f s st ≠ .error .fuel → C.exec te (f+1) s st = C.exec te f s st) ∧
-    (∀ te i n b st, C.exec.forLoop te f i n b st ≠ .error .fuel →
-        C.exec.forLoop te (f+1) i n b st = C.exec.forLoop te f i n b st) := by
+    (∀ te s st m, C.exec te f s st m ≠ .error .fuel → C.exec te (f+1) s st m = C.exec te f s st m) ∧
+    (∀ te i n b st m, C.exec.forLoop te f i n b st m ≠ .error .fuel →
+        C.exec.forLoop te (f+1) i n b st m = C.exec.forLoop te f i n b st m) := by
   induction f with
   | zero =>
     constructor
-    · intro te s st h; exact absurd (by rw [C.exec]) h
-    · intro te i n b st h; exact absurd (by rw [C.exec.forLoop]) h
+    · intro te s st m h; exact absurd (by rw [C.exec]) h
+    · intro te i n b st m h; exact absurd (by rw [C.exec.forLoop]) h
   | succ f ih =>
     obtain ⟨ihe, ihf⟩ := ih
     constructor
-    · intro te s st
+    · intro te s st m
       cases s with
       | skip => intro _; rw [C.exec, C.exec]
       | seq a b =>
         rw [C.exec, C.exec]
-        refine bind_stable (ihe te a st) ?_
+        refine bind_stable (ihe te a st m) ?_
         intro st1 _
         split
         · intro _; rfl
-        · exact ihe te b st1
+        · exact ihe te b st1 m
       | assign x e => intro _; rw [C.exec, C.exec]
       | aug x op e => intro _; rw [C.exec, C.exec]
       | ifs c t e =>
@@ -51,34 +51,34 @@ theorem C_exec_mono1 (f : Nat) :
         refine bind_stable_l ?_
         intro v _
         split
-        · exact ihe te t st
-        · exact ihe te e st
+        · exact ihe te t st m
+        · exact ihe te e st m
       | whileLoop c b =>
         rw [C.exec, C.exec]
         refine bind_stable_l ?_
         intro v _
         split
-        · refine bind_stable (ihe te b st) ?_
+        · refine bind_stable (ihe te b st m) ?_
           intro st1 _
           split
           · intro _; rfl
-          · exact ihe te _ st1
+          · exact ihe te _ st1 m
         · intro _; rfl
       | forRange i n b =>
         rw [C.exec, C.exec]
-        refine bind_stable (ihf _ i n b _) ?_
+        refine bind_stable (ihf _ i n b _ m) ?_
         intro st1 _ _; rfl
       | write e => intro _; rw [C.exec, C.exec]
       | sleep e => intro _; rw [C.exec, C.exec]
       | brk => intro _; rw [C.exec, C.exec]
-    · intro te i n b st
+    · intro te i n b st m
       rw [C.exec.forLoop, C.exec.forLoop]
       refine bind_stable_l ?_
       intro iv _
       refine bind_stable_l ?_
       intro nv _
       split
-      · refine bind_stable (ihe te b st) ?_
+      · refine bind_stable (ihe te b st m) ?_
         intro st1 _
         split
         · intro _; rfl
@@ -86,48 +86,48 @@ theorem C_exec_mono1 (f : Nat) :
           intro cur _
           refine bind_stable_l ?_
           intro nxt _
-          exact ihf te i n b _
+          exact ihf te i n b _ m
       · intro _; rfl
 
-theorem C_exec_mono {te : C.TyEnv} {f f' : Nat} {s : Stmt} {st : Py.St} (hle : f ≤ f')
-    (h : C.exec te f s st ≠ .error .fuel) : C.exec te f' s st = C.exec te f s st := by
+theorem C_exec_mono {te : C.TyEnv} {f f' : Nat} {s : Stmt} {st : Py.St} {m : C.Mode} (hle : f ≤ f')
+    (h : C.exec te f s st m ≠ .error .fuel) : C.exec te f' s st m = C.exec te f s st m := by
   induction hle with
   | refl => rfl
-  | step _ ih => rw [← ih]; exact (C_exec_mono1 _).1 te s st (by rw [ih]; exact h)
+  | step _ ih => rw [← ih]; exact (C_exec_mono1 _).1 te s st m (by rw [ih]; exact h)
 
-theorem C_passes_mono1 (te : C.TyEnv) (f : Nat) (b : Stmt) (n : Nat) (st : Py.St) :
-    C.passes te f b n st ≠ .error .fuel → C.passes te (f+1) b n st = C.passes te f b n st := by
+theorem C_passes_mono1 (te : C.TyEnv) (f : Nat) (b : Stmt) (n : Nat) (st : Py.St) (m : C.Mode := .strict) :
+    C.passes te f b n st m ≠ .error .fuel → C.passes te (f+1) b n st m = C.passes te f b n st m := by
   induction n generalizing st with
   | zero => intro _; rw [C.passes, C.passes]
   | succ n ih =>
     rw [C.passes, C.passes]
-    refine bind_stable ((C_exec_mono1 f).1 te b st) ?_
+    refine bind_stable ((C_exec_mono1 f).1 te b st m) ?_
     intro st1 _
     split
     · intro _; rfl
     · exact ih st1
 
-theorem C_run_mono1 (c : CProg) (N f : Nat) :
-    C.run c N f ≠ .error .fuel → C.run c N (f+1) = C.run c N f := by
+theorem C_run_mono1 (c : CProg) (N f : Nat) (m : C.Mode := .strict) :
+    C.run c N f m ≠ .error .fuel → C.run c N (f+1) m = C.run c N f m := by
   unfold C.run
   refine bind_stable_l ?_
   intro s0 _
-  refine bind_stable ((C_exec_mono1 f).1 _ _ _) ?_
+  refine bind_stable ((C_exec_mono1 f).1 _ _ _ m) ?_
   intro st0 _
   split
   · intro _; rfl
-  · refine bind_stable (C_passes_mono1 _ f _ N st0) ?_
+  · refine bind_stable (C_passes_mono1 _ f _ N st0 m) ?_
     intro _ _ _; rfl
 
-theorem C_run_mono {c : CProg} {N f f' : Nat} (hle : f ≤ f')
-    (h : C.run c N f ≠ .error .fuel) : C.run c N f' = C.run c N f := by
+theorem C_run_mono {c : CProg} {N f f' : Nat} {m : C.Mode} (hle : f ≤ f')
+    (h : C.run c N f m ≠ .error .fuel) : C.run c N f' m = C.run c N f m := by
   induction hle with
   | refl => rfl
-  | step _ ih => rw [← ih]; exact C_run_mono1 c N _ (by rw [ih]; exact h)
+  | step _ ih => rw [← ih]; exact C_run_mono1 c N _ m (by rw [ih]; exact h)
 
-/-- the C run is deterministic up to fuel: two successful runs agree -/
-theorem C_run_det {c : CProg} {N f f' : Nat} {t t' : List Ev}
-    (h : C.run c N f = .ok t) (h' : C.run c N f' = .ok t') : t = t' := by
+/-- the C run (either reading) is deterministic up to fuel: two successful runs agree -/
+theorem C_run_det {c : CProg} {N f f' : Nat} {t t' : List Ev} {m : C.Mode}
+    (h : C.run c N f m = .ok t) (h' : C.run c N f' m = .ok t') : t = t' := by
   have h1 := C_run_mono (Nat.le_max_left f f') (by rw [h]; intro e; cases e)
   have h2 := C_run_mono (Nat.le_max_right f f') (by rw [h']; intro e; cases e)
   rw [h1, h, h'] at h2
